@@ -1462,7 +1462,9 @@ aiff_write_header (SF_PRIVATE *psf, int calc_length)
 		** the way psf_binheader_writef works.
 		*/
 		}
-	else if (psf->instrument == NULL && psf->cues != NULL)
+
+	/* The cue points go into a MARK chunk, whether or not an instrument has been set. */
+	if (psf->cues != NULL)
 	{	/* There are cues but no loops */
 		uint32_t idx ;
 		int totalStringLength = 0, stringLength ;
